@@ -125,7 +125,7 @@ func c01frames(stack string) string {
 	return strings.Join(fs, " < ")
 }
 
-const c01budget = 200000
+const c01budget = 100000
 
 // c01drive runs one text through one entry point of the library on env, on its own goroutine so that a call that
 // never returns is observed instead of hanging the worker.
@@ -215,7 +215,7 @@ func c01drive(env *zygo.Zlisp, entry string, text string) c01out {
 	select {
 	case o := <-done:
 		return o
-	case <-time.After(20 * time.Second):
+	case <-time.After(60 * time.Second):
 		return c01out{class: "timeout"}
 	}
 }
@@ -259,7 +259,9 @@ func c01group(c *engine.Ctx, gw string, setup func(env *zygo.Zlisp), cases []c01
 		if upTo >= 0 && i > upTo {
 			break
 		}
+		c.Beat()
 		o := c01drive(env, cs.entry, cs.text)
+		c.Evals++
 		c.Count("runs", 1)
 		c.Count("class:"+o.class, 1)
 		report := upTo < 0 || i == upTo
@@ -281,7 +283,7 @@ func c01group(c *engine.Ctx, gw string, setup func(env *zygo.Zlisp), cases []c01
 			if c01mayWait(cs.text) {
 				c.Count("waiting_not_judged", 1)
 			} else if report {
-				c.Violation("no-return", "C01/no-return/"+cs.entry, w, fmt.Sprintf("%s did not return within 20 s although the step budget (%d VM steps) was not used up\n  text: %q", cs.entry, c01budget, clipS(cs.text, 400)))
+				c.Violation("no-return", "C01/no-return/"+cs.entry, w, fmt.Sprintf("%s did not return within 60 s although the step budget (%d VM steps) was not used up\n  text: %q", cs.entry, c01budget, clipS(cs.text, 400)))
 			}
 			timeouts++
 			env = c01env()
@@ -301,7 +303,7 @@ func c01group(c *engine.Ctx, gw string, setup func(env *zygo.Zlisp), cases []c01
 var c01alphabet = []string{"(", ")", "[", "]", "{", "}", "a", "1", "-1", `"s"`, "'c'", "a:", ":", ".", "a.b", ".a", "^", "~", "~@", "%", "&", "=", ":=", "+", "-", "*", "/", ",", ";",
 	"fn", "def", "defn", "let", "cond", "for", "and", "quote", "defmac", "set", "begin", "hash", "list", "nil", "break", "return", "package", "struct", "->", "$", "#", "\\", "`", `"s`, "1e", "0x", "/*", "//", "@", "?", "!"}
 
-var c01wrappers = []string{"%s", "(macexpand %s)", "(quote %s)", "^%s", "(eval (quote %s))", "{%s}", "(defn f [] %s) (f)", "(%s)", "[%s]"}
+var c01wrappers = []string{"%s", "(macexpand %s)", "(quote %s)", "^%s", "(eval (quote %s))", "{%s}", "(defn f [] %s) (f)", "(%s)", "[%s]", "(list 1 %s 2)"}
 
 func c01tokenCases(prefix []string, alphabet []string) []c01case {
 	var cases []c01case
@@ -393,6 +395,31 @@ func c01callGroups(c *engine.Ctx, maxArgs int, only string, upTo int) {
 		}
 		// the name used as a value, and called through apply / as a method-like dot call
 		cases = append(cases, c01case{"eval", n + "\n"}, c01case{"eval", "(apply " + n + " [1 2])\n"}, c01case{"eval", "(str " + n + ")\n"}, c01case{"repl", n + " 1 2"}, c01case{"repl", "a = " + n + "(1)"})
+		c01group(c, gw, func(e *zygo.Zlisp) { c01drive(e, "eval", c01prelude+"\n") }, cases, upTo)
+	}
+}
+
+// c01headGroups puts every value kind in call-head position (computed callees, arrays and hashes as callees, ...).
+func c01headGroups(c *engine.Ctx, maxArgs int, only string, upTo int) {
+	heads := append([]string{}, c01values...)
+	heads = append(heads, `["s"]`, "[2.5 1]", "[[1]]", "(list)", "((fn [] car))", "(quote car)", "car:", "h01", "st01.a", "S01", "(S01)", "[nil]", "{}", "-", "%car", "^car", "'a'")
+	for _, h := range heads {
+		gw := "H|" + h + c01tier(c)
+		if !(only == "" && c.Mine() || only == gw) {
+			continue
+		}
+		var cases []c01case
+		var rec func(cur []string)
+		rec = func(cur []string) {
+			cases = append(cases, c01case{"eval", "(" + h + " " + strings.Join(cur, " ") + ")\n"})
+			if len(cur) == maxArgs {
+				return
+			}
+			for _, m := range c01values {
+				rec(append(append([]string{}, cur...), m))
+			}
+		}
+		rec(nil)
 		c01group(c, gw, func(e *zygo.Zlisp) { c01drive(e, "eval", c01prelude+"\n") }, cases, upTo)
 	}
 }
@@ -629,6 +656,7 @@ func c01registryGroups(c *engine.Ctx, only string) {
 			e1 := c01env()
 			o := c01drive(e1, "eval", fmt.Sprintf(route, n)+"\n")
 			c.Count("registry_runs", 1)
+			c.Evals++
 			if o.class == "panic" {
 				c.Violation("panic", "C01/panic/"+c01sig(o.text), w, "a Go panic escaped eval: "+clipS(o.text, 300)+"\n  text: "+fmt.Sprintf(route, n))
 			}
@@ -724,6 +752,7 @@ func c01cli(c *engine.Ctx, only string) {
 				timedOut = true
 			}
 			c.Count("cli_runs", 1)
+			c.Evals++
 			out := buf.String()
 			if timedOut {
 				c.Violation("cli-no-return", "C01/cli-no-return/"+mode, w, fmt.Sprintf("zygo %s did not finish within 30 s\n  text: %q", mode, t))
@@ -754,6 +783,9 @@ func c01all(c *engine.Ctx, only string, upTo int) {
 	if kind == "" || kind == "K" {
 		c01callGroups(c, maxArgs, only, upTo)
 	}
+	if kind == "" || kind == "H" {
+		c01headGroups(c, maxArgs, only, upTo)
+	}
 	if kind == "" || kind == "R" {
 		c01registryGroups(c, only)
 	}
@@ -775,9 +807,9 @@ func init() {
 	engine.Register(&engine.Check{
 		ID:    "C01",
 		Level: "exploration",
-		Rule: "(T) every string of <=3 (thorough 4) tokens over a 60-token alphabet, joined with and without blanks, x 9 wrappers (bare, macexpand, quote, syntax-quote, eval, infix block, function body, call head, array) through EvalString, LoadString+Run, the REPL line path (parse, continuation, infix wrap, EvalExpressions, stack-trace/print) and the parser alone; " +
-			"(K) every bound name, macro and special form x every argument vector of length 0..2 (thorough 3) over 24 value/form kinds; (F) every top-level form of the 111 corpus scripts, after the forms before it, under every prefix, single-token deletion, duplication, neighbour swap and replacement by 8 (thorough 18) tokens; " +
-			"(N) 31 nesting families at depths 1..1000 (thorough 20000), closed, unclosed and over-closed, through eval, REPL, parser, compiler and printer; (C) hand list + alphabet through zygo -c, REPL on stdin and script file. Oracle: the call returns a value or an error (no escaping panic, no process death, no Go-nil result), and returns within 20 s unless the 200000-step budget ran out",
+		Rule: "(T) every string of <=3 (thorough 4) tokens over a 60-token alphabet, joined with and without blanks, x 10 wrappers (bare, macexpand, quote, syntax-quote, eval, infix block, function body, call head, array, call argument) through EvalString, LoadString+Run, the REPL line path (parse, continuation, infix wrap, EvalExpressions, stack-trace/print) and the parser alone; " +
+			"(K) every bound name, macro and special form x every argument vector of length 0..2 (thorough 3) over 24 value/form kinds, and 41 kinds of value in call-head position with the same vectors; (F) every top-level form of the 111 corpus scripts, after the forms before it, under every prefix, single-token deletion, duplication, neighbour swap and replacement by 8 (thorough 18) tokens; " +
+			"(N) 31 nesting families at depths 1..1000 (thorough 20000), closed, unclosed and over-closed, through eval, REPL, parser, compiler and printer; (C) hand list + alphabet through zygo -c, REPL on stdin and script file. Oracle: the call returns a value or an error (no escaping panic, no process death, no Go-nil result), and returns within 60 s unless the 100000-step budget ran out",
 		Assumptions:   []string{"texts that name channel / goroutine primitives may wait for ever and are counted, not judged, when they do", "functions acting on the outside world (" + strings.Join(c01withheld, ", ") + ", sys) are replaced by failing stubs", "allocation sizes between 2^31 and 2^62 are not in the value menu (out-of-memory is not explored)"},
 		QuickDeadline: 170 * time.Second,
 		Run:           func(c *engine.Ctx) { c01all(c, "", -1) },
